@@ -512,6 +512,11 @@ theorem src_helper_calls_followed :
     (∀ c ∈ [EstCls.EG, .GS, .CR], helpersOf c = [] ∧ helperPredictCalls c = []) ∧
     helperPredictClosure .IT ≠ [] ∧ helperPredictClosure .PT ≠ [] ∧ helperPredictClosure .TF ≠ [] := by decide +kernel
 
+/-- what the lifter does NOT follow during prediction is a generated list too, and it consists of the prediction methods of the
+    wrapped base estimators, `FloatTransformer.inverse_transform` and the adversarial predictor function only -/
+theorem src_predict_other_calls_trusted :
+    ∀ c ∈ estimators, subset (predictOtherCalls c) trustedPredictObjectCalls = true := by decide +kernel
+
 /-- inside the helper classes, the closure of the prediction methods the estimators call (`InterpolatedThresholder.predict` /
     `_pmf_predict`, `<engine>.evaluate`) rebinds no attribute of the helper object or of the estimator behind `self.base`,
     stores into none in place, calls no mutating method on one (container mutators, torch in-place `…_` methods, optimiser
